@@ -97,7 +97,7 @@ def run(tier):
     for n in ((4, 5) if tier == "quick" else (4, 5, 6)):
         allv += D.gen_forests("altnav", n, wd)
     # nesting far deeper than a compiler produces (a chain, a chain with a leaf next to every link, two units)
-    allv += D.gen_forests("rawdeep", 136 if tier == "quick" else 200, wd, shards=3)
+    allv += D.gen_forests("rawdeep", 136 if tier == "quick" else 160, wd, shards=3)
     bad_model = [v for v in allv if not v["ok"]["raw"]]
     if bad_model:
         vd.observe("model:all_dies_iterator does not visit the pre-order", {"forest": bad_model[0]["forest"]})
